@@ -12,6 +12,12 @@ def save_leg(chk, tier, label="json-save", arch="json"):
     r = vlib.tlc(mod, cfg=cfg, timeout=3000, xmx="6g")
     chk.add_tlc(mod, r, {"MaxMembers": 1 if quick else 3})
     scen = r.printed("GEN")
+    # documents longer than the writers' output buffers (2 KiB / 4 KiB steps)
+    lcfg = mp.write_cfg("mc_savelong_%s.cfg" % arch, "SPECIFICATION Spec\nCONSTANTS\n  Lens = %s\n  EscChar = %d\nINVARIANT Export\n" % (
+        "{2100}" if quick else "{2100, 4200, 8300}", 34 if arch == "json" else 60))
+    rl = vlib.tlc("MC_SaveLong", cfg=lcfg, timeout=900)
+    chk.add_tlc("MC_SaveLong (%s)" % arch, rl)
+    scen = scen + rl.printed("GEN")
     rows = [{"id": "js%d" % i, "root": s["root"], "opt": s["opt"]} for i, s in enumerate(scen)]
     sp = os.path.join(vlib.scratch(), "savejson.ndjson")
     vlib.write_ndjson(sp, rows)
